@@ -64,6 +64,20 @@ struct Trace {
     const uint8_t *b = (const uint8_t *)p;
     for (size_t i = 0; i < len; i++) { h ^= b[i]; h *= 0x100000001b3ull; }
   }
+  // text line only (never hashed): used for wire events whose canonical binary form is hashed separately
+  void line(uint64_t t_us, const char *fmt, ...) __attribute__((format(printf, 3, 4))) {
+    if (!keep && !echo) return;
+    char buf[4096];
+    va_list ap;
+    va_start(ap, fmt);
+    vsnprintf(buf, sizeof buf, fmt, ap);
+    va_end(ap);
+    char pre[48];
+    snprintf(pre, sizeof pre, "[%10.3f ms] ", t_us / 1000.0);
+    std::string l = std::string(pre) + buf;
+    if (echo) { fputs(l.c_str(), stdout); fputc('\n', stdout); }
+    if (keep) lines.push_back(l);
+  }
   void ev(uint64_t t_us, const char *fmt, ...) __attribute__((format(printf, 3, 4))) {
     char buf[2048];
     va_list ap;
